@@ -90,7 +90,9 @@ def tokens(frag):
 
 def _index(tok, n):
     if tok == "0":
-        return 0
+        if n > 0:
+            return 0
+        raise PointerError("index 0 into an empty array")
     if tok and tok[0] in "123456789" and all(c in "0123456789" for c in tok):
         i = int(tok)
         if i < n:
